@@ -34,9 +34,8 @@ func rulesStorage() []*Rule {
 		ruleChunkBound(),
 		ruleCompactKeep(),
 	}
-	// STORAGE-ALL (debugging aggregate) is not registered: it would report every obligation twice.
-	_ = ruleStorageAll
-	return rs
+	// STORAGE-ALL is a debugging aggregate used only by selftest/storage/run.py; `-rule all` skips it.
+	return append(rs, ruleStorageAll(rs))
 }
 
 // ruleStorageAll runs every storage rule in one process and applies each rule's floor itself.
